@@ -101,7 +101,7 @@ package sourcebundle
 //@   ensures C03,C10.prepare.skip-only-removed: err == nil && rerr == filepath.SkipDir ==> $lastRemoved == absPath
 // a link that is kept has a relative target (the directory is renamed after this walk; an absolute target into it dangles)
 //@   ensures C10.prepare.kept-link-is-relative: err == nil && rerr == nil && $lastRemoved == "" && modeSymlinkBit(fileMode(info)) && !modeDirBit(fileMode(info)) && Rel(root, absPath) != "."
-//@       && !excl(ignoreRules, Rel(root, absPath)) ==> !isAbs(readlinkOf(absPath))
+//@       && !excl(ignoreRules, Rel(root, absPath)) ==> !isAbs(readlinkOf(absPath)) && isLocalPath(Join(Dir(Rel(root, absPath)), readlinkOf(absPath)))
 // an excluded directory is removed; fails (recorded finding) where the directory is kept because a later rule might
 // re-include something below it: if nothing is, the directory stays behind empty
 //@   ensures C10.prepare.excluded-directory-removed: err == nil && rerr == nil && Rel(root, absPath) != "." && modeDirBit(fileMode(info))
